@@ -33,9 +33,10 @@ def through_medium(bundle, medium):
     raise ValueError(medium)
 
 
-def make_custom_loader(plumpy):
+def make_custom_loader(plumpy, strict=False):
     """An object loader with its own identifiers that the default loader cannot resolve for
-    generated classes ('gen!<name>'), everything else is delegated."""
+    generated classes ('gen!<name>'), everything else is delegated.  ``strict``: it refuses the default loader's
+    identifiers of generated classes (they are not its own)."""
     from . import generated
 
     class CustomLoader(plumpy.DefaultObjectLoader):
@@ -50,6 +51,8 @@ def make_custom_loader(plumpy):
             if identifier.startswith('gen!'):
                 CustomLoader.loads += 1
                 return getattr(generated, identifier[4:])
+            if strict and generated.__name__ in identifier and 'CustomLoader' not in identifier:
+                raise ValueError(f'{identifier!r} is not an identifier of this loader')
             return super().load_object(identifier)
 
     CustomLoader.__module__ = generated.__name__
